@@ -298,33 +298,67 @@ func (x *Exec) execNext(fr *Frame, i *ssa.Next) {
 		}
 		return VTuple{[]Value{VBool{ts.False}, k, v}}
 	}
-	// flattened view over the alternatives of the map reference (each alternative's keys in turn)
-	var e *MapEnt
-	var mg *Term
-	for e == nil {
-		if it.alt >= len(it.m.alts) {
+	// iteration BY KEY over the union of the key tables of all alternatives of the map reference:
+	// one visit per distinct key (presence and value merged over the alternatives), so a map field that
+	// became a union of many objects does not multiply the number of iterations
+	if it.seen == nil {
+		it.seen = map[string]bool{}
+	}
+	var pres *Term
+	var k, v Value
+	found := false
+	for !found {
+		var ks string
+		got := false
+		for _, a := range it.m.alts {
+			if a.obj == nil {
+				continue
+			}
+			for _, cand := range a.obj.keys {
+				if !it.seen[cand] {
+					ks, got = cand, true
+					break
+				}
+			}
+			if got {
+				break
+			}
+		}
+		if !got {
 			break
 		}
-		a := it.m.alts[it.alt]
-		if a.obj == nil || it.pos >= len(a.obj.keys) {
-			it.alt++
-			it.pos = 0
-			continue
+		it.seen[ks] = true
+		pres = ts.False
+		first := true
+		for j := len(it.m.alts) - 1; j >= 0; j-- {
+			a := it.m.alts[j]
+			if a.obj == nil {
+				continue
+			}
+			c := a.obj.ents[ks]
+			if c == nil {
+				continue
+			}
+			p := mkAnd(a.g, c.present)
+			if p.isFalse() {
+				continue
+			}
+			if first {
+				k, v, first = c.key, c.val, false
+			} else {
+				v = mergeVal(p, c.val, v)
+			}
+			pres = mkOr(pres, p)
 		}
-		c := a.obj.ents[a.obj.keys[it.pos]]
-		it.pos++
-		if mkAnd(a.g, c.present).isFalse() {
-			continue
+		if !pres.isFalse() {
+			found = true
 		}
-		e, mg = c, a.g
 	}
-	if e == nil {
+	if !found {
 		fr.env[i] = zero()
 		return
 	}
-	pres := mkAnd(mg, e.present)
 	z := zero().(VTuple)
-	k, v := e.key, e.val
 	if z.e[1] == nil {
 		k = nil
 	}
@@ -873,6 +907,17 @@ func (x *Exec) doCall(fr *Frame, c *ssa.CallCommon, fnv, recv Value, args []Valu
 		a := fv.alts[k]
 		ag := mkAnd(g, a.g)
 		if ag.isFalse() {
+			continue
+		}
+		if a.native != nil {
+			fr.cur = ag
+			r := a.native(x, fr, args)
+			if first {
+				res = r
+				first = false
+			} else {
+				res = mergeVal(a.g, r, res)
+			}
 			continue
 		}
 		if a.fn == nil {
